@@ -187,6 +187,7 @@ pub fn gen_case(rng: &mut Rng, c02: bool, thorough: bool) -> CrashCase {
       burst: if many { if c02 { 40 + rng.below(40) as u32 } else { 100 + rng.below(80) as u32 } } else { 0 },
       savepoints: rng.chance(1, 3),
       purge: !many && rng.chance(1, 8),
+      multi_delete: false,
     };
     let mut ops = gen_ops(rng, &cfg, &p);
     if s > 0 && rng.chance(1, 2) {
